@@ -385,8 +385,10 @@ func (r *rawPeer) TxBytesCounterValue() uint64 { return 0 }
 func (r *rawPeer) AsUnreliable() (transport.UnreliableTransport, bool) {
 	return nil, false
 }
-func (r *rawPeer) NegotiationParams() transport.NegotiationParams { return transport.NegotiationParams{} }
-func (r *rawPeer) Name() transport.Name                            { return "raw" }
+func (r *rawPeer) NegotiationParams() transport.NegotiationParams {
+	return transport.NegotiationParams{}
+}
+func (r *rawPeer) Name() transport.Name { return "raw" }
 
 func newRawPeerWT(sess *wt.Session, level int, eff string) (*rawPeer, error) {
 	ss, err := sess.OpenUniStream()
@@ -452,7 +454,7 @@ func theWTServer() *wtServer {
 		s.addr = "localhost:" + fmt.Sprint(pc.LocalAddr().(*net.UDPAddr).Port)
 		s.srv = &wt.Server{
 			CheckOrigin: func(*http.Request) bool { return true },
-			H3: http3.Server{TLSConfig: stls, QUICConfig: &quic.Config{EnableDatagrams: true, MaxIdleTimeout: 3 * time.Minute}},
+			H3:          http3.Server{TLSConfig: stls, QUICConfig: &quic.Config{EnableDatagrams: true, MaxIdleTimeout: 3 * time.Minute}},
 		}
 		s.srv.H3.Handler = http.HandlerFunc(s.handle)
 		go s.srv.Serve(pc)
